@@ -533,4 +533,105 @@ mod rg {
         kani::cover!(n == 3);
         kani::cover!(n == 0);
     }
+
+    // ---- emissions may also START while into_inner waits ---------------------------------------------------------
+    // Environment (other threads), acting at every point where into_inner touches the strong count -- the CAS of
+    // Arc::try_unwrap AND any plain load of it (Arc::strong_count), so that a waiting strategy built on loads is covered too:
+    //   * after a load that observed the count, and before every CAS attempt, ONE new emission may start (Weak::upgrade:
+    //     strong += 1, a real Arc<Rec> parked in HELD2), at most STARTS_LEFT times in total;
+    //   * after a failed CAS attempt, or after a load that saw strong > 1, one in-flight emission finishes.
+    // Guarantee asked of into_inner ("returns the original recorder only when no emission is executing inside it", and it
+    // never panics): it terminates, the CAS that succeeds sees strong == 1 with no emission in flight, the recorder comes back
+    // un-finalised.  A check-then-act wait (spin on strong_count, then a single try_unwrap that must succeed) breaks here.
+    pub static mut HELD2: [Option<Arc<Rec>>; 4] = [None, None, None, None];
+    pub static mut IN_FLIGHT2: usize = 0;
+    pub static mut STARTS_LEFT: u32 = 0;
+    pub static mut STRONG2: usize = 0;   // address of the strong count of the handle's Arc (0 = not armed)
+    pub static mut DATA2: usize = 0;     // address of the Rec inside that Arc
+    pub static mut OK_AT_ZERO: bool = true;
+
+    unsafe fn env_start_one(p: *mut usize) {
+        if STARTS_LEFT > 0 && IN_FLIGHT2 < 4 && *p >= 1 && kani::any() {
+            STARTS_LEFT -= 1;
+            *p += 1;                                            // Weak::upgrade's effect on the strong count (A1)
+            HELD2[IN_FLIGHT2] = Some(Arc::from_raw(DATA2 as *const Rec));
+            IN_FLIGHT2 += 1;
+        }
+    }
+    unsafe fn env_finish_one() {
+        if IN_FLIGHT2 > 0 {
+            IN_FLIGHT2 -= 1;
+            let e = HELD2[IN_FLIGHT2].take();
+            drop(e);                                            // the emission's reference goes away (real Arc drop)
+        }
+    }
+    pub fn load2_stub(a: &AUZ, _o: O) -> usize {
+        unsafe {
+            let p = a.as_ptr();
+            let v = *p;
+            if STRONG2 != 0 && p as usize == STRONG2 {
+                if v > 1 { env_finish_one(); } else { env_start_one(p); }
+            }
+            v
+        }
+    }
+    pub fn compare_exchange2_stub(a: &AUZ, current: usize, new: usize, _s: O, _f: O) -> Result<usize, usize> {
+        unsafe {
+            let p = a.as_ptr();
+            if STRONG2 == 0 || p as usize != STRONG2 {
+                let cur = *p;
+                return if cur == current { *p = new; Ok(cur) } else { Err(cur) };
+            }
+            env_start_one(p);
+            let cur = *p;
+            if cur == current {
+                if !(current == 1 && new == 0 && IN_FLIGHT2 == 0) { OK_AT_ZERO = false; }
+                *p = new;
+                Ok(cur)
+            } else {
+                env_finish_one();
+                Err(cur)
+            }
+        }
+    }
+    #[kani::proof]
+    #[kani::unwind(8)]
+    #[kani::stub(core::sync::atomic::Atomic::<usize>::compare_exchange, compare_exchange2_stub)]
+    #[kani::stub(core::sync::atomic::Atomic::<usize>::load, load2_stub)]
+    #[kani::stub(core::hint::spin_loop, spin_loop_stub)]
+    fn c20_into_inner_vs_starting_emissions_rg() {
+        let n: usize = kani::any();
+        kani::assume(n <= 1);
+        let starts: u32 = kani::any();
+        kani::assume(starts <= 2);
+        let id: u32 = kani::any();
+        let (wrapped, handle) = RecoverableRecorder::new(Rec { id }).build();
+        let data = Arc::as_ptr(&handle.handle);
+        unsafe {
+            DATA2 = data as usize;
+            // ArcInner<Rec> = { strong: AtomicUsize, weak: AtomicUsize, data: Rec } (repr(C)); checked right below
+            STRONG2 = data as usize - 2 * core::mem::size_of::<usize>();
+            assert!(*(STRONG2 as *const usize) == 1);
+        }
+        if n == 1 {
+            unsafe {
+                *(STRONG2 as *mut usize) += 1;
+                HELD2[0] = Some(Arc::from_raw(data));
+                IN_FLIGHT2 = 1;
+            }
+        }
+        unsafe { STARTS_LEFT = starts };
+        let rec = handle.into_inner();          // must not panic, must terminate
+        unsafe {
+            STRONG2 = 0;                        // disarm the environment
+            assert!(OK_AT_ZERO);                // the successful CAS saw strong == 1 and nobody inside
+            assert!(IN_FLIGHT2 == 0);
+        }
+        assert!(rec.id == id);
+        assert!(DROPS.load(O::SeqCst) == 0);
+        core::mem::forget(rec);
+        core::mem::forget(wrapped);
+        kani::cover!(n == 1 && starts == 2);
+        kani::cover!(n == 0 && starts == 1);
+    }
 }
